@@ -17,13 +17,25 @@ struct elem {
     int id;
     struct cstl_bintree_node bn;   /* kind bin */
     struct cstl_rbtree_node rn;    /* kind rb  */
+    char pad[24];
+    struct cstl_bintree_node bn2;  /* node members of the second tree object (header swapobj) */
+    struct cstl_rbtree_node rn2;
 };
 
 static struct elem * pool[MAXE];
 static int keys[MAXE], nkeys;
 static int rb;
-static struct cstl_bintree bt;
-static struct cstl_rbtree rt;
+/* Two tree objects whose elements embed the node at DIFFERENT offsets.  The tree under test lives in *pbt / *prt;
+ * header `swapobj k1 k2 ..`: before the operations with these (0-based) indices the two objects are exchanged with
+ * cstl_bintree_swap / cstl_rbtree_swap and the test continues on the other object - which must then behave exactly as
+ * before (contents, comparison function, node offset all travel with the tree), so model and oracle are unaffected. */
+static struct cstl_bintree bts[2], * pbt;
+static struct cstl_rbtree rts[2], * prt;
+static int cur_obj;
+#define bt (*pbt)
+#define rt (*prt)
+#define MAXSW 16
+static int swap_at[MAXSW], nswap;
 
 static struct elem * get(int id)
 {
@@ -95,7 +107,7 @@ static void dump_node(const struct cstl_bintree_node * n, const struct cstl_bint
     nodes++;
     printf(" ( %d", id);
     if (rb) {
-        int c = (int)e->rn.c;
+        int c = (int)((const struct cstl_rbtree_node *)((uintptr_t)e + rt.off))->c;
         if (c == CSTL_RBTREE_COLOR_R) printf(" R");
         else if (c == CSTL_RBTREE_COLOR_B) printf(" B");
         else printf(" MALFORMED(colour)");
@@ -135,7 +147,8 @@ static void run_case(const struct h_case * c)
 {
     int i, k, started = 0;
 
-    nkeys = 0; rb = 0; cmpmode = 0; cmp_calls = 0; vsign = 1;
+    int opno = 0;
+    nkeys = 0; rb = 0; cmpmode = 0; cmp_calls = 0; vsign = 1; nswap = 0; cur_obj = 0; pbt = &bts[0]; prt = &rts[0];
     memset(pool, 0, sizeof(pool));
     memset(seen, 0, sizeof(seen));
     for (i = 0; i < c->nlines; i++) {
@@ -149,11 +162,22 @@ static void run_case(const struct h_case * c)
         if (h_weq(l, 0, "kind")) { rb = h_weq(l, 1, "rb"); continue; }
         if (h_weq(l, 0, "cmpmode")) { cmpmode = a; continue; }
         if (h_weq(l, 0, "vsign")) { vsign = a < 0 ? -1 : 1; continue; }
+        if (h_weq(l, 0, "swapobj")) { for (k = 1; k < l->nw && nswap < MAXSW; k++) swap_at[nswap++] = (int)h_int(l, k); continue; }
         if (!started) {
-            if (rb) cstl_rbtree_init(&rt, cmp, H_COOKIE, offsetof(struct elem, rn));
-            else cstl_bintree_init(&bt, cmp, H_COOKIE, offsetof(struct elem, bn));
+            if (rb) {
+                cstl_rbtree_init(&rts[0], cmp, H_COOKIE, offsetof(struct elem, rn));
+                cstl_rbtree_init(&rts[1], cmp, H_COOKIE, offsetof(struct elem, rn2));
+            } else {
+                cstl_bintree_init(&bts[0], cmp, H_COOKIE, offsetof(struct elem, bn));
+                cstl_bintree_init(&bts[1], cmp, H_COOKIE, offsetof(struct elem, bn2));
+            }
             started = 1;
         }
+        for (k = 0; k < nswap; k++) if (swap_at[k] == opno) {
+            if (rb) cstl_rbtree_swap(&rts[0], &rts[1]); else cstl_bintree_swap(&bts[0], &bts[1]);
+            cur_obj = !cur_obj; pbt = &bts[cur_obj]; prt = &rts[cur_obj];
+        }
+        opno++;
         if (h_weq(l, 0, "insert") || h_weq(l, 0, "inserth")) {
             struct elem * e;
             if (a < 0 || a >= MAXE || linked(a)) { printf("precond\n"); return; }
@@ -186,6 +210,8 @@ static void run_case(const struct h_case * c)
                 /* the caller owns it again: scribble over the links */
                 memset(&r->bn, 0x5A, sizeof(r->bn));
                 memset(&r->rn, 0x5A, sizeof(r->rn));
+                memset(&r->bn2, 0x5A, sizeof(r->bn2));
+                memset(&r->rn2, 0x5A, sizeof(r->rn2));
             }
         }
         else if (h_weq(l, 0, "foreach")) {
